@@ -1,12 +1,14 @@
 #!/bin/sh
-# Regenerate the generated Coq sources from the tree in $VERIF_REPO (default /repo):
-#   coq/Units/Gen_*.v   unit tables for C16/C17        (translator/dump_units.py)
-#   coq/Stats/Gen_Stats.v  statistics method bodies for C09/C10 (translator/py2gallina_stats.py)
-# Files are rewritten only if they changed.  (The checks themselves translate into a
+# Regenerate the generated Coq sources from the tree in $VERIF_REPO (default /repo).
+# One snippet per generator in translator/regen.d/*.sh (run in name order, sourced
+# with $PY set, cwd = /verif).  Generated files match coq/**/Gen_*.v (git-ignored)
+# and are rewritten only if they changed.  (The checks themselves translate into a
 # per-tree scratch directory; these copies are for setup / `tools/build.py all`.)
 cd "$(dirname "$0")/.."
 PY="${VERIF_PY:-/venv/bin/python}"
 rc=0
-env PYTHONDONTWRITEBYTECODE=1 timeout 120 "$PY" translator/dump_units.py || rc=$?
-env PYTHONDONTWRITEBYTECODE=1 timeout 120 "$PY" translator/py2gallina_stats.py || rc=$?
+for f in translator/regen.d/*.sh; do
+  [ -f "$f" ] || continue
+  ( . "./$f" ) || rc=$?
+done
 exit $rc
